@@ -57,7 +57,7 @@ Boot(e) ==
             learn |-> ModeFlags(e.mode, e.dev)[1], bc |-> ModeFlags(e.mode, e.dev)[2], st |-> e.st]
       obs == FromPost(e.post) IN
   /\ st' = [st EXCEPT ![e.n] = [up |-> TRUE, s |-> obs, c |-> c, plain |-> PlainOf(e.post)]]
-  /\ inst' = inst \cup {[nid |-> c.nid, key |-> e.key, trusted |-> SeqSet(e.trusted), claims |-> e.claims, T |-> e.T]}
+  /\ inst' = inst \cup {[nid |-> c.nid, key |-> e.key, trusted |-> SeqSet(e.trusted), claims |-> e.claims, T |-> e.T, adv |-> SeqSet(e.adv)]}
   \* C13 / C10 / C11: which modes learn from traffic and which send unknown destinations to everybody
   /\ Chk({"C10", "C11", "C13"}, "boot-mode-flags", <<e.learn, e.bc>> = ModeFlags(e.mode, e.dev))
   /\ When(e.fresh, Chk({"C12", "C14", "C15"}, "boot-state",
@@ -163,6 +163,9 @@ RecvEv(e) ==
         Chk({"C05", "C01"}, "handshake-info-origin", genuine /\ e.info.nid = e.orig))
   /\ When(e.res = "nodeinfo" /\ genuine /\ KnownInst(e.info.nid),
         Chk({"C12"}, "announcement-is-the-configured-claims", e.info.claims = InstOf(e.info.nid).claims /\ e.info.nid = e.orig))
+  \* C14: the addresses a node lists for itself arrive as they are: its socket address and whatever it advertises are among them
+  /\ When(e.hasinfo /\ genuine /\ ~plainSrc /\ KnownInst(e.info.nid) /\ e.res \in {"nodeinfo", "initialized", "initialized-reply"},
+        Chk({"C14"}, "own-address-list-arrives-intact", InstOf(e.info.nid).adv \cup {e.info.nid[1]} \subseteq SeqSet(e.info.addrs)))
   \* C14: every peer the message lists that is neither connected nor the node itself is dialled, nothing else is
   /\ When(e.res \in {"nodeinfo", "initialized", "initialized-reply"},
         Chk({"C14"}, "peer-list-dials", Addrs(obs.pend) = Addrs(pred.pend)))
